@@ -9,6 +9,7 @@
 -/
 import TealerModel.Props.TieFlow
 import TealerModel.Props.TieAsserted
+import TealerModel.Props.TieWorklist
 import TealerModel.Lemmas.Dfs
 import TealerModel.Props.Common
 import TealerModel.Lemmas.Asserted
@@ -340,6 +341,33 @@ example :
     (Generated.getAssertedPy addrAnalysis.dom (addrAnalysis.univ "RekeyTo")
         (fun k v => Generated.getAssertedTxnGtxn (TieM.envOf none) (TieM.envOf none) k v) (TieM.envOf none) (ins.length + 3) ⟨"RekeyTo", .self⟩
         (treeOf (constructAst ins) ins.length (some (3, 0)))).map (fun r => r.1 != r.2) = some true := by
+  decide +kernel
+
+/-- THE WORKLIST SOLVERS ARE THE PYTHON'S.  `forward_analyis` and `backward_analysis` (with `_merge_information_forward` /
+    `_merge_information_backward`: initialisation of the per-key dictionary, the `while worklist:` loop, which blocks are re-queued
+    when a block's value changes - global successors plus the return point of a call site, resp. global predecessors plus the call
+    site of a return point -, the early exit of the backward merge at leaf blocks), translated statement by statement from /repo's
+    Python on this run for one analysis key (Generated/Worklist.lean; `while` = recursion on fuel), compute - with the model's fuel
+    and initial worklists - exactly `solveFwd` and `solveBwd`, the functions `C01_solver_sound`, `C03_contexts_exact` and
+    `C14_forward_order_independent` are about.  (With several keys the Python re-queues a block when any key changed: another
+    schedule of the same equations, immaterial by C14.) -/
+theorem C01_tie_worklists {D : Type} [DecidableEq D] (A : Analysis D) (g : Graph) (univ : D) (bc ctx1 : Nat → D) (pc : Nat → Nat → D)
+    (E : PyView.Env) (key : Key) :
+    Generated.forwardAnalyis A.dom univ bc pc g.keys (TieF.graphBlock g) E key (solverFuel g) (fwdWorklist g) =
+        (solveFwd A g univ bc pc).map (TieW.asFun A.dom.null) ∧
+      Generated.backwardAnalysis A.dom univ ctx1 pc g.keys (TieF.graphBlock g) E key (solverFuel g) (bwdWorklist g) =
+        (solveBwd A g ctx1).map (TieW.asFun A.dom.null) :=
+  ⟨TieW.forward_tie A g univ bc pc E key, TieW.backward_tie A g univ ctx1 pc E key⟩
+
+/-- non-vacuity: the translated `forward_analyis`, evaluated by the kernel on a two-block graph (entry 0 -> leaf 1, block 1
+    constrained to {2, 3}, the edge to {1, 2}), returns `some` solution with reach-out {1, 2, 3} at the entry and {2} at the leaf -/
+example :
+    let g : Graph := { keys := [0, 1], entry := 0, nextG := fun k => if k = 0 then [1] else [], prevG := fun k => if k = 1 then [0] else [],
+                       isLeaf := fun k => k == 1, retPointOf := fun _ => none, callsubOf := fun _ => none, calleeHasRetsub := fun _ => false,
+                       postorders := [[1, 0]] }
+    (Generated.forwardAnalyis natSetDomain [1, 2, 3] (fun k => if k = 1 then [2, 3] else [1, 2, 3]) (fun _ _ => [1, 2]) g.keys
+        (TieF.graphBlock g) (TieM.envOf none) ⟨"GroupSize", .self⟩ (solverFuel g) (fwdWorklist g)).map (fun r => (r 0, r 1)) =
+      some ([1, 2, 3], [2]) := by
   decide +kernel
 
 end Tealer.C01
